@@ -1,5 +1,6 @@
 /* C05: h_string */
 #include "harness/C05/common.h"
+#include "x_json_rd.c"      /* eof / where / size / go: real bodies */
 #include "x_json_string.c"
 
 void h_string(void) { StringReader* r; JVal* ret; IN_COMMON; JSON_parse_string(r, ret); VERIF_REACH(); }
